@@ -184,7 +184,7 @@ def e2e_config(draw, front=("single", "single", "joint"), max_N=3, max_W=4, max_
         "outliers": draw(st.sampled_from([0, 0, 0, 1, 1, 2, 3])),
         "reuse_buffers": draw(st.booleans()),
         "prior_calls_on_same_arrays": draw(st.booleans()),
-        "series_as_views": draw(st.sampled_from([False, False, True])),
+        "series_as_views": draw(st.sampled_from([False, False, False, True, "interleaved"])),
         "mp_env": draw(st.sampled_from([False, False, True])),
         "quantise": draw(st.sampled_from([None, None, None, None, 1.0, 2.0])),
     }
